@@ -1005,9 +1005,9 @@ func main() {
 	distinct := vh.Distinct{}
 	var cases []*Case
 
-	nCodec, nBuilt, nHostile, nWitness := 6000, 9000, 5000, 60
+	nCodec, nBuilt, nHostile, nWitness := 4000, 7000, 4000, 50
 	if *tier == "thorough" {
-		nCodec, nBuilt, nHostile, nWitness = 120000, 60000, 30000, 60
+		nCodec, nBuilt, nHostile, nWitness = 100000, 40000, 20000, 50
 	}
 
 	var codec strings.Builder
@@ -1165,7 +1165,7 @@ func main() {
 		}
 	}
 
-	var v strings.Builder
+	var v, inputs strings.Builder
 	for i, c := range cases {
 		o := run(c)
 		oracle(c, o, res)
@@ -1198,7 +1198,9 @@ func main() {
 		if i%997 == 3 {
 			res.Sample(map[string]any{"case": c, "observed": o}, 6)
 		}
-		res.Cases = append(res.Cases, c)
+		cb, _ := json.Marshal(c)
+		inputs.Write(cb)
+		inputs.WriteByte('\n')
 	}
 	res.Evaluations = len(cases) + codecN
 	res.Distinct = len(distinct)
@@ -1214,6 +1216,9 @@ func main() {
 		panic(err)
 	}
 	if err := os.WriteFile(filepath.Join(*out, "cases_route.txt"), []byte(v.String()), 0o644); err != nil {
+		panic(err)
+	}
+	if err := os.WriteFile(filepath.Join(*out, "route_inputs.jsonl"), []byte(inputs.String()), 0o644); err != nil {
 		panic(err)
 	}
 	if err := res.Write(filepath.Join(*out, "result.json")); err != nil {
